@@ -25,6 +25,7 @@ pub struct Stats {
     pub pke_seals: u64,
     pub rsa_c_leading_zero: u64,
     pub skipped_over_budget: u64,
+    pub zero_work_factor_blobs: u64,
 }
 
 fn ktype<K: SealingKey>() -> &'static str {
@@ -550,6 +551,26 @@ pub fn tamper<B: Backend>(rec: &mut Recorder, st: &mut Stats, cfg: &Cfg) {
         }
         pw_unwrap::<B, Local>(rec, st, &blob, pass, json!({"cls":"relabel","to":"local"}));
         relabel_all(rec, st, "pw", "secret", &blob, pass, &w);
+    }
+    // a work factor of zero is outside the valid range (RFC 8018: a positive iteration count; Argon2: at least one pass): a backend
+    // may refuse to wrap with it, but a blob it does produce must still be bound to its password.  The blob is not recorded as an
+    // honest wrap, so the specification demands that every presentation of it under ANOTHER password is rejected.
+    {
+        let zero: (u64, u32, u32) = if B::VER == 1 || B::VER == 3 { (0, 0, 1) } else { (8 * 1024, 0, 1) };
+        let made = catch_unwind(AssertUnwindSafe(|| {
+            let p = pw_params::<B>(zero);
+            key_from_bytes::<B::V, Local>(lk).and_then(|k| k.password_wrap_with_params(pass, &p)).map(|x| x.to_string())
+        }));
+        if let Ok(Ok(text)) = made {
+            if let Some(blob) = body_of(&text, &hdr_pw::<B, Local>()) {
+                st.zero_work_factor_blobs += 1;
+                for p2 in [&b""[..], &b"x"[..], &b"correct horse battery stapl"[..]] {
+                    if p2 != &pass[..] {
+                        pw_unwrap::<B, Local>(rec, st, &blob, p2, json!({"cls":"zero-work-factor-other-password"}));
+                    }
+                }
+            }
+        }
     }
     // ---- PKE
     rec.emit(json!({"ev":"Reset","scenario":format!("tamper-seal-{}", B::NAME)}));
